@@ -47,14 +47,17 @@ def check_io(conf, G, nodes, times, P, PP, combo, serial, d5_lost):
         bad('write-raises', {'exc': repr(ex)[:200]}, exc=type(ex).__name__)
         return res, 1
     raw = iocommon.raw_bytes(path, target)
+    # the writers encode line by line (a signature codec such as utf-8-sig therefore marks every line) and the readers
+    # decode line by line: the file is decoded the same way
     try:
-        text = raw.decode(enc)
+        parts = raw.split(b'\n')
+        rows = [ln.decode(enc) for ln in parts[:-1]]
+        tail = parts[-1]
     except Exception:
         bad('not-in-requested-encoding', {'bytes': repr(raw[:80])})
         return res, 1
-    if text and not text.endswith('\n'):
-        bad('last-line-not-terminated', {'tail': repr(text[-30:])})
-    rows = text.split('\n')[:-1] if text else []
+    if raw and tail != b'':
+        bad('last-line-not-terminated', {'tail': repr(raw[-30:])})
     st = list(G.stream_interactions())
     want_rows = [d.join(map(str, ev)) for ev in st]
     if rows != want_rows:
@@ -62,12 +65,13 @@ def check_io(conf, G, nodes, times, P, PP, combo, serial, d5_lost):
         bad('rows-differ-from-stream', {'rows': repr(rows[:6]), 'stream rows': repr(want_rows[:6])}, reordered=same_multiset,
             fewer=len(rows) < len(want_rows), more=len(rows) > len(want_rows))
     nt = nodetype_of(conf)
+    ckw = {'comments': U.FLAVOURS[conf['flavour']]['comments']} if 'comments' in U.FLAVOURS[conf['flavour']] else {}
     try:
         if target == 'fileobj':
             with open(path, 'rb') as f:
-                H = dn.read_interactions(f, directed=directed, nodetype=nt, timestamptype=int, delimiter=d, encoding=enc)
+                H = dn.read_interactions(f, directed=directed, nodetype=nt, timestamptype=int, delimiter=d, encoding=enc, **ckw)
         else:
-            H = dn.read_interactions(path, directed=directed, nodetype=nt, timestamptype=int, delimiter=d, encoding=enc)
+            H = dn.read_interactions(path, directed=directed, nodetype=nt, timestamptype=int, delimiter=d, encoding=enc, **ckw)
     except Exception as ex:
         bad('read-raises', {'exc': repr(ex)[:200]}, exc=type(ex).__name__)
         H = None
@@ -90,6 +94,14 @@ def check_io(conf, G, nodes, times, P, PP, combo, serial, d5_lost):
                     fewer=len(hs) < len(st), more=len(hs) > len(st))
             for sub, sig, det in oracles.canonical(H, conf, what='read_interactions'):
                 bad('read-back-' + sig['kind'], det)
+            # the same file read with a multi-character comment marker that occurs nowhere in it
+            if target == 'plain':
+                try:
+                    H2 = dn.read_interactions(path, directed=directed, nodetype=nt, timestamptype=int, delimiter=d, encoding=enc, comments='--')
+                    if _norm_stream(H2, list(H2.stream_interactions())) != _norm_stream(H, hs) or observe.presence(H2, hn, ht) != PH:
+                        bad('custom-comment-marker-changes-graph', {'comments': '--'})
+                except Exception as ex:
+                    bad('custom-comment-marker-raises', {'comments': '--', 'exc': repr(ex)[:200]}, exc=type(ex).__name__)
     try:
         os.unlink(path)
     except OSError:
